@@ -1017,6 +1017,38 @@ def c07_build(ctx):
             cases.append(mk("rt_media", t, group="corpus"))
     for _ in range(ctx.n(800, 8000)):
         cases.append(mk("rt_media", G.gen_media(rng, key_weight=0.5, features=ctx.features)[0], group="generated"))
+    # built playlists, segments with and without explicit numbers: the effective IV of a built segment is its number too
+    for _ in range(ctx.n(2500, 40000)):
+        n = rng.randint(1, 5)
+        style = rng.choice(["implicit", "explicit-perm", "explicit-some", "random"])
+        if style == "implicit":
+            nums = [None] * n
+        elif style == "explicit-perm":
+            nums = list(range(n)); rng.shuffle(nums)
+        elif style == "explicit-some":
+            nums = [j if rng.random() < 0.5 else None for j in range(n)]
+        else:
+            nums = [rng.choice([None, rng.randint(0, n)]) for _ in range(n)]
+        ms = rng.choice([None, None, 0, 0, 1, 5])
+        segs, want = [], {}
+        for j in range(n):
+            keys = []
+            for q in range(rng.choice([0, 1, 1, 2])):
+                method = rng.choice(["AES-128", "AES-128", "SAMPLE-AES"])
+                fmt = [None, "identity", "f2"][q] if rng.random() < 0.7 else rng.choice([None, "identity"])
+                if any(NF[k[3]] == NF[fmt] for k in keys):
+                    continue
+                iv = ("%032x" % rng.choice([0, j, 2**128 - 1, rng.getrandbits(128)])) if rng.random() < 0.3 else None
+                keys.append((method, "k%d_%d" % (j, q), iv, fmt))
+            segs.append({"events": [], "keys": keys, "uri": "s%d" % j, "br": None, "dur": NS, "title": None, "disc": False, "pdt": None, "map": None})
+            want["s%d" % j] = keys
+        mode = rng.choice(["push", "segs"])
+        calls = ["td 10000000000"] + (["ms %d" % ms] if ms is not None else [])
+        if mode == "push":
+            calls += ["push " + c20_seg_script(sg, num) for sg, num in zip(segs, nums)]
+        else:
+            calls += ["segs " + " | ".join(c20_seg_script(sg, num) for sg, num in zip(segs, nums))]
+        cases.append(mk("build_media", "\n".join(calls), group="built:" + style, meta={"built": want, "ms": ms or 0}))
     return cases
 
 
@@ -1024,6 +1056,23 @@ def c07_oracle(ctx, cases, impl, model):
     fails = []
     for c, a in zip(cases, impl):
         r = C.Resp(a)
+        if "built" in c.meta:
+            if r.status == "panic":
+                fails.append(dict(describe(c.line, a), what="the media playlist builder panicked", law="no-panic")); continue
+            if r.status != "ok":
+                continue
+            m = Media(r.obs)
+            for i, sg in enumerate(m.segments):
+                if sg.number != m.mseq + i:
+                    fails.append(dict(describe(c.line, a), what="built segment %d has number %d, expected media sequence %d + %d" % (i, sg.number, m.mseq, i), law="numbering",
+                                      explicit_number_kept_under_media_sequence=(sg.explicit and m.mseq > 0 and sg.number == i))); break
+                exp = {}
+                for (method, uri, iv, fmt) in c.meta["built"].get(sg.uri, []):
+                    exp[(uri, NF[fmt])] = ("A", iv) if iv is not None else (("N", sg.number) if method == "AES-128" and fmt in (None, "identity") else ("M",))
+                got = {key_ident(k): iv_of(k) for k in sg.keys if k != "K0"}
+                if got != exp:
+                    fails.append(dict(describe(c.line, a), what="built segment %s (number %d): effective IVs %s, expected %s" % (sg.uri, sg.number, got, exp), law="iv-built")); break
+            continue
         if r.status == "panic":
             fails.append(dict(describe(c.line, a), what="media parser panicked", law="no-panic")); continue
         if r.status != "ok":
@@ -1055,6 +1104,11 @@ def c07_oracle(ctx, cases, impl, model):
     return fails
 
 
+@classifier("K7-explicit-number-is-slot-index")
+def _k7(f):
+    return f.get("explicit_number_kept_under_media_sequence") is True
+
+
 def c07_canon(raw, keys):
     """status, media sequence, per segment number and the (key identity -> effective IV) map"""
     r = C.Resp(raw)
@@ -1067,9 +1121,9 @@ def c07_canon(raw, keys):
 PROPS["C07"] = {
     "build": c07_build, "gate": {"status"}, "canon": c07_canon, "oracle": c07_oracle,
     "nontrivial": lambda c, a: a.startswith("ok") and "#EXT-X-KEY" in c.payload,
-    "rule": "random playlists of 1-6 segments with media sequences from {absent, 0, 1, 7, 2^32, 2^63, 2^64-1-len .. 2^64-1, random} placed at a random line boundary, key histories over 4 formats / 2 methods / explicit 128-bit IVs in both hex cases / METHOD=NONE; repository fixtures; generated playlists; non-trivial = accepted text with at least one EXT-X-KEY",
+    "rule": "random playlists of 1-6 segments with media sequences from {absent, 0, 1, 7, 2^32, 2^63, 2^64-1-len .. 2^64-1, random} placed at a random line boundary, key histories over 4 formats / 2 methods / explicit 128-bit IVs in both hex cases / METHOD=NONE; repository fixtures; generated playlists; builder call sequences (push_segment / segments) with implicit, permuted explicit, partly explicit and random explicit numbers and per-segment keys; non-trivial = accepted text with at least one EXT-X-KEY",
     "explanation": "theorems: numbering_lines / numbering (number = media sequence + index, < 2^64, media sequence = last MEDIA-SEQUENCE line wherever it stands), completeIv_spec, completeIv_explicit, derived_iv_value, effective_ivs_lines, show_iv_free, stripIv_spec, stripIv_completeIv; oracle: independent Python computation of numbers and effective IVs from the generated history, and a scan of the serialised text for IV attributes that were not in the input",
-    "assumptions": ["built playlists with explicit segment numbers are outside this check (recorded finding K7, see C20)"],
+    "assumptions": ["built playlists: segments with and without explicit numbers, media sequence in {absent, 0, 1, 5} (group built:*); acceptance of explicit numbers is C20's subject"],
 }
 
 
@@ -2232,6 +2286,15 @@ def c18_build(ctx):
     for _ in range(ctx.n(3000, 100000)):
         ns = rng.choice([rng.randint(0, 10**15 - 1), rng.randint(0, 10**10), rng.randint(0, 10**6) * NS + rng.choice([0, 1, 499999999, 500000000, 999999999])])
         cases.append(mk("tag:ExtInf", "#EXTINF:%s," % dec9(ns), group="duration", meta={"domain": True, "ns": ns}))
+    # EXTINF titles: everything behind the FIRST comma is the title (commas, '=', quotes, blanks inside included)
+    words = ["Artist", "The - Song", "a", "b", "x=y", "日本", "\"q\"", "1", "#EXT", "t\t2", "-", "0x1F", ""]
+    for _ in range(ctx.n(800, 16000)):
+        k = rng.randint(1, 4)
+        title = rng.choice([",", ", ", " ,", ";"]).join(rng.choice(words) for _ in range(k)).strip()
+        if not title:
+            continue
+        ns = rng.choice([rng.randint(0, 10**10), rng.randint(0, 30) * NS])
+        cases.append(mk("tag:ExtInf", "#EXTINF:%s,%s" % (dec9(ns), title), group="duration-title", meta={"domain": True, "ns": ns, "title": title}))
     # composite tags in their canonical domain: valid seeds + generated
     for name in TAG_OPS:
         for t in TAG_SEEDS[name]:
@@ -2301,6 +2364,8 @@ def c18_oracle(ctx, cases, impl, model):
             m = parse_obs(r.obs)
             if int(m[0]) != c.meta["ns"]:
                 fails.append(dict(describe(c.line, a), what="EXTINF %s parsed to %s ns" % (dec9(c.meta["ns"]), m[0]), law="duration-exact"))
+            if "title" in c.meta and ostr(m[1]) != c.meta["title"]:
+                fails.append(dict(describe(c.line, a), what="EXTINF title %r parsed to %r" % (c.meta["title"], ostr(m[1])), law="title-exact"))
     cov, bad = c18_sweep(ctx)
     ctx.sweep = cov
     for l, o in bad[:5]:
